@@ -39,3 +39,12 @@ Definition mism_addre := Eval vm_compute in
   failing (fun c : address * list Z * list Z * list Z => let '(a, digest, s, bs) := c in
              eqb_zl (addr_encode (fun _ => digest) a) s && eqb_zl (addr_bytes (fun _ => digest) a) bs) cases_addre.
 Print mism_addre.
+Definition mism_btc := Eval vm_compute in
+  failing (fun c : list Z * list Z * outcome address * list Z => let '(text, digest, obs, restr) := c in
+             eqb_outcome_addr (btc_decode (fun _ => digest) text) obs &&
+             match obs with Ok a => eqb_zl (btc_encode (fun _ => digest) a) restr | Err _ => true end) cases_btc.
+Print mism_btc.
+Definition mism_btcb := Eval vm_compute in
+  failing (fun c : list Z * list Z * outcome address => let '(b, digest, obs) := c in
+             eqb_outcome_addr (btc_from_bytes (fun _ => digest) b) obs) cases_btcb.
+Print mism_btcb.
